@@ -46,6 +46,19 @@ func wire(label string) string {
 	return label
 }
 
+// objLabel: an answer whose value path resolves to a JSON object (three members whose floating-point sum depends on
+// the order they are added in). Not a number: like any other non-numeric answer.
+const objLabel = "obj"
+const objJSON = `{"ask":1,"bid":10000000000000000,"mid":-10000000000000000}`
+
+// outputOf builds the response body for a value label.
+func outputOf(label string) string {
+	if label == objLabel {
+		return fmt.Sprintf(`{"header":{},"body":{"%s":%s}}`, valuePath, objJSON)
+	}
+	return fmt.Sprintf(`{"header":{},"body":{"%s":"%s"}}`, valuePath, wire(label))
+}
+
 // FeedSpec describes a feed (fixture or create op).
 type FeedSpec struct {
 	Name      string
@@ -735,7 +748,7 @@ func (d *Driver) Apply(e *mc.Env, s *mc.State, op mc.Op) []mc.Finding {
 		f := m.feeds[od.feed]
 		b := f.Batch
 		msg := &servicetypes.MsgRespondService{RequestId: b.Req[od.prov], Provider: mc.Addr(od.prov).String(), Result: resultOK,
-			Output: fmt.Sprintf(`{"header":{},"body":{"%s":"%s"}}`, valuePath, wire(od.value))}
+			Output: outputOf(od.value)}
 		if od.value == errLabel {
 			msg.Result, msg.Output = resultErr, ""
 		}
